@@ -22,7 +22,7 @@ class NotReady(Exception):
 
 class Ref:
   def __init__(self, prog, store, strings, range_bound=3, depths=None, macros=(),
-               compaction=True, default_depth=8, list_nothing='null'):
+               compaction=True, default_depth=8, list_nothing='null', order_specs=None):
     self.prog = prog
     self.store = store
     self.strings = strings
@@ -41,6 +41,7 @@ class Ref:
     self.iter_cache = {}
     self.iterations_override = {}
     self.scope = frozenset()
+    self.order_specs = order_specs or {}
 
   # ------------------------------------------------------------ dependency analysis
   def _deps(self, pred):
@@ -107,6 +108,9 @@ class Ref:
       rel = self._recursive(pred)
     else:
       rel = self.eval_pred(pred)
+    if pred in self.order_specs:
+      keys, limit = self.order_specs[pred]
+      rel = V.order_limit_rel(rel, [(rel.col(c), d) for c, d in keys], limit, self.assumptions)
     self.cache[pred] = rel
     return rel
 
@@ -161,35 +165,37 @@ class Ref:
         rows.append((g, self.head_values(r, bind)))
     if not any(distinct):
       return Rel(cols, [(g, vals) for g, vals in rows])
+    # shape and operators come from the head (all rules of a predicate agree)
+    r0 = rules[0]
+    head_items = [None] * len(r0.args) + [v for _, v in r0.nargs] + ([r0.value] if r0.value is not None else [])
+    shape = [isinstance(v, Agg) for v in head_items]
+    ops = [v.op if isinstance(v, Agg) else None for v in head_items]
+    key_idx = [i for i, a in enumerate(shape) if not a]
+    if not key_idx:
+      # no keys: Logica compiles this without GROUP BY, so there is exactly one row, also
+      # when no body has a solution (aggregates over nothing)
+      members = [(g, vals) for g, vals in rows]
+      return Rel(cols, [(True, self._fold(shape, ops, None, members))], distinct=True)
     if not rows:
       return Rel(cols, [], distinct=True)
-    shape = [isinstance(v, tuple) for v in rows[0][1]]
-    key_idx = [i for i, a in enumerate(shape) if not a]
     keys = [[vals[i] for i in key_idx] for g, vals in rows]
-    if not key_idx:
-      # one global group; like SQL GROUP BY over zero keys it exists iff a row exists...
-      # Logica compiles this without GROUP BY: exactly one row always.
-      members = [(g, vals) for g, vals in rows]
-      out_row = self._fold(shape, None, members)
-      return Rel(cols, [(True, out_row)], distinct=True)
     groups = V.group_slots([(g, vals) for g, vals in rows], keys, self.compaction)
     slots = []
     for rep, keyvals, members in groups:
-      slots.append((rep, self._fold(shape, dict(zip(key_idx, keyvals)), members)))
+      slots.append((rep, self._fold(shape, ops, dict(zip(key_idx, keyvals)), members)))
     return Rel(cols, slots, distinct=True)
 
   def _has_agg(self, r):
     return any(isinstance(v, Agg) for _, v in r.nargs) or isinstance(r.value, Agg)
 
-  def _fold(self, shape, keyvals, members):
+  def _fold(self, shape, ops, keyvals, members):
     out = []
     for i, is_agg in enumerate(shape):
       if not is_agg:
         out.append(keyvals[i])
         continue
-      op = members[0][1][i][1]
       ms = [(g, vals[i][2]) for g, vals in members]
-      out.append(self.aggregate(op, ms))
+      out.append(self.aggregate(ops[i], ms))
     return out
 
   def aggregate(self, op, ms):
